@@ -33,10 +33,17 @@ HdrFields == {F(5, 0, 1, 0, 1, 9, <<>>), F(5, 0, 2, 0, 2, 300, <<>>), F(7, 0, 1,
              \cup {F(11, 2, 1, 1, SubSize(sub), 0, sub) : sub \in SplitSubs}
 HdrLayouts == UNION {[1..n -> HdrFields] : n \in 0..2}
 
+\* object layouts with a nested header holding a split header, followed (or not) by a payload field
+HdrWith(sub) == {<<F(11, 2, 1, 1, SubSize(sub), 0, sub)>>, <<F(5, 0, 1, 0, 1, 9, <<>>), F(11, 2, 1, 1, SubSize(sub), 0, sub)>>}
+NestedObjLayouts == UNION {{ <<Leaf(1), F(3, 2, 1, 1, Total(h), 0, h)>>, <<F(3, 2, 1, 1, Total(h), 0, h), Leaf(4)>>,
+                             <<Leaf(1), Leaf(2), F(3, 2, 1, 1, Total(h), 0, h), F(4, 2, 1, 1, 3, 0, <<>>)>> } :
+                           h \in UNION {HdrWith(sub) : sub \in SplitSubs}}
+
 Init == lay = <<>> /\ pc = "start"
+PickNested == pc = "start" /\ \E x \in NestedObjLayouts : lay' = x /\ pc' = "nested"
 PickObj == pc = "start" /\ \E x \in ObjLayouts : lay' = x /\ pc' = "obj"
 PickHdr == pc = "start" /\ \E x \in HdrLayouts : lay' = x /\ pc' = "hdr"
-Next == PickObj \/ PickHdr
+Next == PickObj \/ PickHdr \/ PickNested
 Spec == Init /\ [][Next]_vars
 
 Cuts == 0..Total(lay)
@@ -65,10 +72,36 @@ ObjUnorderedIsError ==
   pc = "obj" /\ Total(lay) > 0 /\ (\E i \in 1..(Len(lay) - 1) : lay[i].num <= 3 /\ lay[i + 1].num <= lay[i].num /\ \A j \in 1..i : lay[j].num < 3 /\ lay[j].wt = 2)
     => NonPayloadBounds(lay, Total(lay)).err
 
+SubCanon(sub) == Ascending(sub) /\ \A i \in 1..Len(sub) : sub[i].wt = 2
+\* the parent walk of GetParentNonPayloadFieldBounds never leaves the split header, whatever follows it (payload!)
+NestedParentInsideSplit ==
+  pc = "nested" =>
+    LET hi == CHOOSE j \in 1..Len(lay) : lay[j].num = 3
+        h == lay[hi].sub
+        si == CHOOSE j \in 1..Len(h) : h[j].num = 11
+        sFrom == Start(lay, hi) + lay[hi].tl + lay[hi].ll + Start(h, si) + h[si].tl + h[si].ll
+        sTo == sFrom + h[si].n
+        Inside(b) == b = Missing \/ (b[1] >= sFrom /\ b[3] <= sTo)
+    IN \A cut \in Cuts :
+         LET pb == ParentBoundsObj(lay, cut) IN
+         pb.err \/ (Inside(pb.id) /\ Inside(pb.sig) /\ Inside(pb.hdr) /\ AllWithin(pb, cut))
+NestedParentCanonical ==
+  pc = "nested" =>
+    LET hi == CHOOSE j \in 1..Len(lay) : lay[j].num = 3
+        h == lay[hi].sub
+        si == CHOOSE j \in 1..Len(h) : h[j].num = 11
+        sub == h[si].sub
+        vfrom == Start(lay, hi) + lay[hi].tl + lay[hi].ll + Start(h, si) + h[si].tl + h[si].ll
+        Shift(b) == IF b = Missing THEN Missing ELSE <<b[1] + vfrom, b[2] + vfrom, b[3] + vfrom>>
+        pb == ParentBoundsObj(lay, Total(lay))
+    IN (SubCanon(sub) /\ sub # <<>>) =>
+         ~pb.err /\ pb.id = Shift(RefBounds(sub, 1)) /\ pb.sig = Shift(RefBounds(sub, 3)) /\ pb.hdr = Shift(RefBounds(sub, 4))
+\* head buffer of fstree: an object whose non-payload part fits the buffer is always readable by the head paths
+HeadBufferSuffices == pc \in {"obj", "nested"} /\ CanonObj(lay) /\ Total(lay) > 0 /\ NonPayloadSize(lay) <= HeadBufLen => ~HeadRead(lay)[1]
+
 HdrAsc == \A i \in 1..(Len(lay) - 1) : lay[i].num <= lay[i + 1].num
 HdrNum(num) == \E i \in 1..Len(lay) : lay[i].num = num
 HdrFirst(num) == lay[CHOOSE i \in 1..Len(lay) : lay[i].num = num /\ \A j \in 1..(i - 1) : lay[j].num # num]
-SubCanon(sub) == Ascending(sub) /\ \A i \in 1..Len(sub) : sub[i].wt = 2
 HdrValues ==
   pc = "hdr" /\ HdrAsc /\ (\A i \in 1..Len(lay) : lay[i].num \in {5, 7} => lay[i].wt = 0) =>
     LET p == VarintField(lay, Total(lay), 5)
